@@ -25,10 +25,11 @@ WELLKNOWN = {'no-export': 0xFFFFFF01, 'no-advertise': 0xFFFFFF02, 'no-export-sub
 
 
 class Dev:
-    __slots__ = ('kw', 'bnd', 'text', 'cls', 'eff', 'kws', 'tail', 'long', 'big', 'must', 'seg', 'post', 'block', 'flat_only')
+    __slots__ = ('kw', 'bnd', 'text', 'cls', 'eff', 'kws', 'tail', 'long', 'big', 'must', 'seg', 'post', 'block', 'flat_only', 'solo')
 
     def __init__(self, kw, bnd, text, cls, eff=None, kws=None, tail=False, long=False, big=False, must=False, seg=None, post=None, block=None,
-                 flat_only=False):
+                 flat_only=False, solo=False):
+        self.solo = solo        # never combined with another deviation (it changes how everything before it is read)
         self.kw, self.bnd, self.text, self.cls, self.eff = kw, bnd, text, cls, eff
         self.kws = frozenset(kws or [kw])
         self.tail, self.long, self.big, self.must = tail, long, big, must
@@ -450,7 +451,7 @@ def syntax_devs(p=''):
     return [
         D(p + 'unknown', 'keyword', 'foo 1', 'bad'), D(p + 'unknown', 'keyword-no-value', 'foo', 'bad', tail=True),
         D(K, 'stray-;', None, 'either', nothing, post=app(' ; med 5'), kws=kws), D(K, 'double-;', None, 'either', nothing, post=app(' ;;')),
-        D(K, 'stray-{', None, 'either', skip('all'), post=app(' { med 5'), kws=kws), D(K, 'stray-}', None, 'either', skip('all'), post=app(' } med 5'), kws=kws),
+        D(K, 'stray-{', None, 'either', skip('all'), post=app(' { med 5'), kws=kws, solo=True), D(K, 'stray-}', None, 'either', skip('all'), post=app(' } med 5'), kws=kws),
         D(K, 'stray-]', None, 'bad', post=app(' ] med 5'), kws=kws), D(K, 'stray-[', None, 'bad', post=app(' [ med 5'), kws=kws),
         D(K, 'stray-(', None, 'bad', post=app(' ( med 5'), kws=kws), D(K, 'stray-)', None, 'bad', post=app(' ) med 5'), kws=kws),
         D(K, 'stray-comma', None, 'bad', post=app(' , med 5'), kws=kws),
